@@ -3,7 +3,7 @@
 Theorems (coq/Properties/C02.v over coq/Rec/Frozen.v, which wraps coq/Rec/Modes.v): for every
 sequence of operations (open in any mode by name or list with either class, reads,
 create/fill/discard/commit patches, merge_files into the same or another directory, close,
-giving up the handle) that does not truncate the record ('w', delete_files), every committed
+giving up the handle, create_stub) that does not truncate the record ('w', delete_files), every committed
 container keeps its name, user-block fields, payload and manifest link, and its sidecar keeps
 its content (C02_committed_frozen, C02_merge_target_frozen); any set of committed files opens
 afterwards exactly as before (C02_snapshot_still_valid), in particular the file set present
@@ -42,6 +42,7 @@ import vlib
 NAMES = ["foo", "foo2"]
 CLASSES = ["IH5Record", "IH5MFRecord"]
 MERGE_TARGETS = ["foo", "foo2", "foo3", "foo-m", "bad_name"]
+STUB_TARGETS = ["foo-s", "fo", "foo", "foo2", "bad_name"]
 OP_TIMEOUT = 60
 MF = "mf.json"
 
@@ -69,7 +70,8 @@ def parse_ub(path: Path) -> Optional[Dict[str, Any]]:
     ext = (j.get("ub_exts") or {}).get("ih5mf_v01")
     return {"rec": j.get("record_uuid"), "idx": j.get("patch_index"), "id": j.get("patch_uuid"),
             "prev": j.get("prev_patch"), "committed": j.get("hdf5_hashsum") is not None,
-            "ext": None if ext is None else ext.get("manifest_uuid")}
+            "ext": None if ext is None else ext.get("manifest_uuid"),
+            "stub": bool(ext.get("is_stub_container")) if ext is not None else False}
 
 
 def scan_dir(d: Path) -> Dict[str, Dict[str, Any]]:
@@ -120,11 +122,9 @@ class Runner:
         self.obs: List[Any] = []
         self.problems: List[Dict[str, Any]] = []
         self.snaps: List[Dict[str, Any]] = []
-        self.tainted = False
-        self.model_upto: Optional[int] = None
         self.stats = {"ops": 0, "sha_file_checks": 0, "snapshots": 0, "snapshot_checks": 0, "merge_snapshots": 0,
                       "uncommitted_changed": 0, "uncommitted_rplus_reopen_changed": 0, "mtime_changed_committed": 0,
-                      "refused_ops": 0, "refused_commit_polluted_memory": 0, "with_exits": 0, "with_exits_by_exception": 0, "abandoned": 0}
+                      "refused_ops": 0, "stubs": 0, "with_exits": 0, "with_exits_by_exception": 0, "abandoned": 0}
         self.kinds: Dict[str, int] = {}
 
     # ---- helpers
@@ -170,7 +170,7 @@ class Runner:
                 if fn.endswith(".ih5") and e.get("ub"):
                     ub = e["ub"]
                     toks = None if opened else R3.raw_tokens(d / fn)
-                    out.append([fn, ub["rec"], ub["idx"], ub["id"], ub["prev"], ub["committed"], toks, ub["ext"]])
+                    out.append([fn, ub["rec"], ub["idx"], ub["id"], ub["prev"], ub["committed"], toks, ub["ext"], ub["stub"]])
             return out
 
         def sides(where):
@@ -368,24 +368,11 @@ class Runner:
     def pending_commit_files(self):
         return list(self.rec.ih5_files)
 
-    def mem_exts(self):
-        """The manifest links of the user blocks the handle holds in memory."""
-        try:
-            return json.dumps([u.ub_exts for u in self.rec.ih5_meta], sort_keys=True, default=str)
-        except Exception:  # noqa: BLE001
-            return None
-
     def do_commit(self, cmd):
         rec = self.rec
-        exts = self.mem_exts()
         outcome = self.call("commit_patch", rec.commit_patch, ["commit", cmd[1]])
         if outcome == "ok":
             self.take_snapshot(list(rec.ih5_files), self.info["cls"], R3.safe_dump(rec))
-        elif exts is not None and self.mem_exts() != exts:
-            # side finding (not C02): a refused manifest-aware commit left a link to a manifest that was never
-            # written in the in-memory user block; a later merge_files copies it into its (new) target
-            self.tainted = True
-            self.stats["refused_commit_polluted_memory"] += 1
         self.observe(outcome)
 
     def do_close(self, cmd, via_exit=None):
@@ -422,14 +409,51 @@ class Runner:
         def go():
             box["f"] = rec.merge_files(tdir / t)
 
-        if self.tainted and self.model_upto is None:
-            self.model_upto = len(self.concrete)     # the model (repaired behaviour) is compared up to here only
         outcome = self.call("merge_files", go, ["merge", "T" if ew else "F", t, m])
         if outcome == "ok":
             f = Path(box["f"])
             if f.parent != tdir or f.name != f"{t}.ih5":
                 self.problem(f"merge_files returned {f}, expected {tdir / (t + '.ih5')}")
             self.take_snapshot([f], self.info["cls"], None, merge=True)
+        self.observe(outcome)
+
+    def stub_sources(self) -> List[str]:
+        """Containers of the directory whose sidecar records their own user block (written by
+        their commit, or copied from the record a merge result was made of)."""
+        out = []
+        for fn, e in scan_dir(self.d).items():
+            if fn.endswith(".ih5") and e.get("ub") and e["ub"]["committed"] and (self.d / (fn + MF)).is_file():
+                try:
+                    ub = json.loads((self.d / (fn + MF)).read_bytes())["user_block"]
+                except Exception:  # noqa: BLE001
+                    continue
+                if (str(ub.get("patch_uuid")) == e["ub"]["id"] and str(ub.get("record_uuid")) == e["ub"]["rec"]
+                        and ub.get("patch_index") == e["ub"]["idx"]):
+                    out.append(fn)
+        return out
+
+    def do_stub(self, cmd):
+        """["stub", ew, target, src | None (resolved now) | "missing", m]"""
+        _, ew, t, src, m = cmd
+        ew = ew in ("T", True)
+        if src is None:
+            cands = self.stub_sources()
+            src = self.rng.choice(sorted(cands)) if cands else "missing"
+        if src == "missing":
+            src = "nothere.ih5"
+        tdir = self.o if ew else self.d
+        cls = R3.classes()["IH5MFRecord"]
+
+        def go():
+            ds = cls.create_stub(tdir / t, self.d / (src + MF))
+            ds.close()
+
+        outcome = self.call("create_stub", go, ["stub", "T" if ew else "F", t, src, m])
+        gc.collect()
+        if outcome == "ok":
+            self.stats["stubs"] += 1
+            self.info = {"name": t, "cls": "IH5MFRecord", "mode": "x"}
+            self.take_snapshot([tdir / f"{t}.ih5"], "IH5MFRecord", None, merge=True)
         self.observe(outcome)
 
     def do_simple(self, cmd):
@@ -450,7 +474,6 @@ class Runner:
             self.rec = None
             gc.collect()
 
-        self.tainted = False
         self.observe(self.call("drop", go, ["drop"]))
 
     def run_cmds(self, cmds: List[Any], pos: int, in_with: bool) -> int:
@@ -478,6 +501,11 @@ class Runner:
                     continue   # the handle cannot be given up inside its own `with` block
                 self.do_drop(cmd)
                 self.maybe_check()
+                continue
+            if k == "stub":
+                if self.rec is None and not in_with:
+                    self.do_stub(cmd)
+                    self.maybe_check()
                 continue
             if self.rec is None:
                 continue
@@ -563,7 +591,7 @@ def run_history(case: Dict[str, Any]) -> Dict[str, Any]:
     finally:
         gc.collect()
     return {"status": "ok", "concrete": R.concrete, "obs": R.obs, "problems": R.problems, "stats": R.stats,
-            "kinds": R.kinds, "nsnaps": len(R.snaps), "model_upto": R.model_upto}
+            "kinds": R.kinds, "nsnaps": len(R.snaps)}
 
 
 def w_history(case):
@@ -586,6 +614,8 @@ def model_script(concrete: List[Any]) -> List[Any]:
             out.append(["close", c[1] in ("T", True), c[2]])
         elif k == "merge":
             out.append(["merge", c[1] in ("T", True), c[2], c[3]])
+        elif k == "stub":
+            out.append(["stub", c[1] in ("T", True), c[2], c[3], c[4]])
         else:
             out.append(list(c))
     return out
@@ -607,8 +637,8 @@ def canon(ob: Dict[str, Any]) -> Any:
 
     def fl(files):
         return [[fn, rn(("r", rec)), int(idx), rn(("p", fid)), rn(("p", prev)) if prev is not None else None,
-                 bool(c), toks, rn(("m", ext)) if ext is not None else None]
-                for fn, rec, idx, fid, prev, c, toks, ext in files]
+                 bool(c), toks, rn(("m", ext)) if ext is not None else None, bool(stub)]
+                for fn, rec, idx, fid, prev, c, toks, ext, stub in files]
 
     def sd(sides):
         return [[fn, rn(("m", m))] for fn, m in sides]
@@ -630,9 +660,9 @@ def model_obs(res: Any) -> Dict[str, Any]:
 
     def fl(fs):
         out = []
-        for fn, rec, idx, fid, prev, c, toks, ext in sorted(fs, key=lambda f: f[0]):
+        for fn, rec, idx, fid, prev, c, toks, ext, stub in sorted(fs, key=lambda f: f[0]):
             out.append([fn, rec, int(idx), fid, prev[0] if prev else None, c == "T",
-                        None if opened else sorted(toks), ext[0] if ext else None])
+                        None if opened else sorted(toks), ext[0] if ext else None, stub == "T"])
         return out
 
     def sd(s):
@@ -655,7 +685,7 @@ def coarse(outcome: str, cmd) -> str:
     for the other steps on a handle only accepted / refused."""
     if cmd[0] in ("open", "drop"):
         return outcome
-    if cmd[0] == "merge":      # h5py mode 'x' on a path this process holds open raises plain OSError
+    if cmd[0] in ("merge", "stub"):      # h5py mode 'x' on a path this process holds open raises plain OSError
         return "exists" if outcome in ("FileExistsError", "other:OSError") else outcome
     return "ok" if outcome == "ok" else "refused"
 
@@ -747,6 +777,9 @@ def gen_history(rng) -> List[Any]:
     cmds: List[Any] = []
     for _ in range(rng.randint(4, 9)):
         cmds += g.session()
+        if rng.random() < 0.3:     # create_stub between two sessions (source sidecar chosen at run time)
+            cmds.append(["stub", rng.choice(["T", "F"]), rng.choices(STUB_TARGETS, [4, 3, 1, 1, 1])[0],
+                         "missing" if rng.random() < 0.1 else None, g.id()])
     return cmds
 
 
@@ -776,6 +809,13 @@ def pattern_histories() -> List[List[Any]]:
                 ["open", cls, "x", ["name", "foo"], n(), n(), "plain"], ["open", cls, "w-", ["name", "foo2"], n(), n(), "plain"],
                 ["open", cls, "r", ["list*", "foo", "full"], n(), n(), "with"], ["read"], ["exit", "T", n()], ["drop"],
                 ["open", cls, "a", ["name", "foo"], n(), n(), "plain"], ["close", "T", n()], ["drop"],
+                ["stub", "F", "foo-s", None, n()], ["stub", "T", "foo", None, n()], ["stub", "F", "foo-s", None, n()],
+                ["stub", "F", "foo", None, n()], ["stub", "F", "fo", "missing", n()],
+                ["open", "IH5MFRecord", "r+", ["name", "foo-s"], n(), n(), "with"], ["write", "tk9", None], ["read"],
+                ["exit", "F", n()], ["drop"],
+                ["open", other, "r", ["name", "foo-s"], n(), n(), "plain"], ["merge", "T", "foo-sm", n()], ["close", "T", n()], ["drop"],
+                ["stub", "T", "st2", None, n()],
+                ["open", cls, "r+", ["name", "foo"], n(), n(), "plain"], ["write", "tk10", None], ["close", "T", n()], ["drop"],
             ])
     return out
 
@@ -801,6 +841,8 @@ def shape(cmds) -> List[Any]:
             out.append([c[0], c[1]])
         elif c[0] == "merge":
             out.append(["merge", c[1], c[2]])
+        elif c[0] == "stub":
+            out.append(["stub", c[1], c[2], "missing" if c[3] == "nothere.ih5" else "src"])
         else:
             out.append(list(c))
     return out
@@ -820,7 +862,7 @@ def run(ctx: vlib.Ctx):
         "code after every operation (a test, not a proof)",
     ]
     cases = [{"cmds": h, "seed": 7 + i, "rich": True, "pattern": True} for i, h in enumerate(pattern_histories())]
-    for _ in range(ctx.budget(150, 2000)):
+    for _ in range(ctx.budget(100, 2000)):
         cases.append({"cmds": gen_history(ctx.rng), "seed": ctx.rng.randrange(10**9), "rich": ctx.rng.random() < 0.7,
                       "pattern": False})
     results = vlib.pmap(w_history, cases, chunksize=2)
@@ -831,11 +873,10 @@ def run(ctx: vlib.Ctx):
     mcases, midx = [], []
     for i, res in enumerate(results):
         if res["status"] == "ok" and res["concrete"]:
-            upto = res["model_upto"] if res["model_upto"] is not None else len(res["concrete"])
-            mcases.append(["script", model_script(res["concrete"][:upto])])
+            mcases.append(["script", model_script(res["concrete"])])
             midx.append(i)
     mres = vlib.run_model("c02", mcases)
-    xc = vlib.coq_crosscheck("c02", mcases, mres, "c02", max_cases=5)
+    xc = vlib.coq_crosscheck("c02", mcases, mres, "c02", max_cases=3)
 
     disagreements: List[Dict[str, Any]] = []
     harness_errors = []
@@ -843,7 +884,6 @@ def run(ctx: vlib.Ctx):
     kinds: Dict[str, int] = {}
     shapes = set()
     steps = 0
-    truncated = 0
     outcomes: Dict[str, int] = {}
     for i, res in enumerate(results):
         if res["status"] != "ok":
@@ -856,9 +896,6 @@ def run(ctx: vlib.Ctx):
         shapes.add(vlib.signature(shape(res["concrete"])))
     for i, mr in zip(midx, mres):
         res = results[i]
-        if res["model_upto"] is not None:
-            res = dict(res, obs=res["obs"][:res["model_upto"]], concrete=res["concrete"][:res["model_upto"]])
-            truncated += 1
         steps += len(res["obs"])
         if len(mr) != len(res["obs"]):
             disagreements.append({"case": i, "what": f"model produced {len(mr)} steps, impl {len(res['obs'])}", "tail": mr[-1:]})
@@ -922,11 +959,6 @@ def run(ctx: vlib.Ctx):
                      f"uncommitted newest container changed {stats.get('uncommitted_changed', 0)} times "
                      f"({stats.get('uncommitted_rplus_reopen_changed', 0)} of them by a reopen in r+/a alone) — allowed")
 
-    if truncated:
-        ctx.notes.append(f"side finding (not C02, reported separately): in {truncated} histories a REFUSED IH5MFRecord.commit_patch "
-                         "changed the in-memory user block (shallow copy shares ub_exts) and a later merge_files wrote that "
-                         "dangling manifest link into its new target / tripped the assertion of _fixes_after_merge; the model "
-                         "comparison of those histories stops at that merge, the byte monitor and snapshot checks continue")
     if harness_errors:
         ctx.violation(f"{len(harness_errors)} case(s) could not be evaluated: {harness_errors[0]}",
                       {"kind": "harness", "errors": harness_errors[:3]}, found_input=False)
@@ -959,17 +991,5 @@ def replay(rep) -> int:
             print("step", p["step"], p["cmd"], "->", p["what"])
         print("still failing" if res["problems"] else "no longer failing")
         return 1 if res["problems"] else 0
-    if rep.get("kind") == "side-finding-polluted-commit":
-        # not a C02 violation: a refused manifest-aware commit changes the user block held in memory
-        res = run_history({"cmds": rep["cmds"], "seed": rep.get("seed", 0), "rich": False})
-        if res["status"] != "ok":
-            print("could not run:", res)
-            return 1
-        n = res["stats"]["refused_commit_polluted_memory"]
-        print(f"refused commits that changed the in-memory user block: {n}; C02 oracle problems: {len(res['problems'])}")
-        for c, ob in zip(res["concrete"], res["obs"]):
-            print("  ", c, "->", ob["outcome"], "| links of containers:",
-                  {f[0]: f[7] for f in ob["main"] + ob["other"]}, "| sidecars:", dict(ob["sides"] + ob["osides"]))
-        return 1 if n else 0
     print("replay names a proof obligation or correspondence; re-run the check itself")
     return 1
